@@ -26,6 +26,7 @@ def main():
     nrect = int(sys.argv[3]) if len(sys.argv) > 3 else 600
     ngp = int(sys.argv[4]) if len(sys.argv) > 4 else 200
     ctx = vf.Ctx('C04', 'quick', 1)
+    vf.alt_sync()
     env = C04.setup(ctx)
     fails = []
     tot = 0
